@@ -490,3 +490,28 @@ impl Bundle for Padding {
         Ok(Self { bits })
     }
 }
+
+/// Verification hooks (`--cfg jxl_oxide_verif`): add-only access to crate-private parts for the
+/// out-of-tree harness crate.
+#[cfg(jxl_oxide_verif)]
+pub mod verif {
+    pub use crate::bit_writer::BitWriter;
+
+    /// Builds the canonical code of a DHT-style table (`counts[len]` codes of length `len`,
+    /// `values` in code order, the last value being the sentinel) and looks `symbol` up:
+    /// `Ok((length, left-aligned code bits))` or `Err(())` when the symbol has no code.
+    pub fn huffman_build_and_lookup(
+        counts: [u8; 17],
+        values: Vec<u8>,
+        symbol: u8,
+    ) -> Result<(u8, u64), ()> {
+        let code = crate::huffman::HuffmanCode {
+            is_ac: false,
+            id: 0,
+            is_last: true,
+            counts,
+            values,
+        };
+        code.build().lookup(symbol).map_err(|_| ())
+    }
+}
